@@ -229,7 +229,9 @@ pub fn e2_probe<S: Src>(s: &mut S) {
 /// everything but C18): the tables are created by `Tables::new` on the first `tables()`/`modify()`.
 pub fn fresh_store() -> Store {
     let db = redb::Database::builder().create_with_backend(redb::backends::InMemoryBackend::new()).unwrap();
-    Store { db, transaction: Default::default(), open_replicas: Default::default(), pubkeys: Default::default() }
+    // (the E2 harnesses that needed the cheaper struct literal are run by no tier; going through the constructor keeps the
+    // harness crate building when the store gains a field)
+    Store::new_impl(db).unwrap()
 }
 
 /// cost probe: only `Store::memory()` (table setup + migrations on an empty database)
